@@ -182,6 +182,13 @@ class Number(ExcelType):
 
     blank_value = 0
 
+    def __new__(cls, value):
+        # A numpy scalar is held as the Python number it stands for: numpy
+        # integers wrap around silently (2 ** numpy.int64(100) == 0).
+        if isinstance(value, numpy.generic):
+            value = value.item()
+        return super().__new__(cls, value)
+
     @property
     def is_whole(self):
         return isinstance(self.value, int)
